@@ -447,14 +447,14 @@ func (ma *mergeAnalysis) ruleR13(c *Ctx) {
 				case *ssa.FieldAddr:
 					if mf.prov(x.X)&tPlugin != 0 && mf.prov(x.X)&(tAcc|tStaged) == 0 {
 						if n := ptrNamed(x.X.Type()); n != nil {
-							read[fam][n.Obj().Name()+"."+fieldName(x.X.Type(), x.Field)] = true
+							read[fam][tname(n.Obj())+"."+fieldName(x.X.Type(), x.Field)] = true
 						}
 					}
 				case *ssa.Call:
 					if f := m.callee(x.Common()); f != nil {
 						if fld, ok := m.getterField(f); ok && mf.prov(x.Call.Args[0])&tPlugin != 0 && mf.prov(x.Call.Args[0])&(tAcc|tStaged) == 0 {
 							if n := ptrNamed(x.Call.Args[0].Type()); n != nil {
-								read[fam][n.Obj().Name()+"."+fld] = true
+								read[fam][tname(n.Obj())+"."+fld] = true
 							}
 						}
 					}
@@ -506,7 +506,7 @@ func (ma *mergeAnalysis) ruleR21(c *Ctx) {
 	for _, tn := range []string{"CreateContainerResponse", "UpdateContainerResponse", "StopContainerResponse"} {
 		st := m.structOf(pkgAPI, tn)
 		for i := 0; i < st.NumFields(); i++ {
-			if n := st.Field(i).Name(); n == "Adjust" || n == "Update" {
+			if n := fname(st.Field(i)); n == "Adjust" || n == "Update" {
 				want[tn] = append(want[tn], n)
 			}
 		}
